@@ -376,28 +376,21 @@ func (c *CharSet) prepareASCIIBitmap() {
 }
 
 func (c *CharSet) charInCategories(ch rune) bool {
+	// The categories form a union: ch is a member as soon as it is in one
+	// positive category or outside one negated category. A category that does
+	// not admit ch says nothing about the ones that follow.
 	for _, ct := range c.categories {
+		var in bool
 		// special categories...then unicode
-		if ct.Cat == SpaceCategoryText {
-			if unicode.IsSpace(ch) {
-				// we found a space so we're done
-				// negate means this is a "bad" thing
-				return !ct.Negate
-			} else if ct.Negate {
-				return true
-			}
-		} else if ct.Cat == WordCategoryText {
-			if IsWordChar(ch) {
-				return !ct.Negate
-			} else if ct.Negate {
-				return true
-			}
-		} else if unicode.Is(unicodeCategories[ct.Cat], ch) {
-			// if we're in this unicode category then we're done
-			// if negate=true on this category then we "failed" our test
-			// otherwise we're good that we found it
-			return !ct.Negate
-		} else if ct.Negate {
+		switch ct.Cat {
+		case SpaceCategoryText:
+			in = unicode.IsSpace(ch)
+		case WordCategoryText:
+			in = IsWordChar(ch)
+		default:
+			in = unicode.Is(unicodeCategories[ct.Cat], ch)
+		}
+		if in != ct.Negate {
 			return true
 		}
 	}
